@@ -151,9 +151,22 @@ def run_abi(res, ctx):
                            "as undecided, not judged")
 
 
+SRC_ARGS = "harness/c06_args.cpp"
+
+
+def run_args(res, ctx):
+    """part (b): argument shuffling, harness/c06_args.cpp (msim node simulator)"""
+    tier = ctx["tier"]
+    if ctx["opts"].get("leg") not in (None, "args"):
+        return
+    runner.run_harness(res, SRC_ARGS, "asan", tier, deadline=300 if tier == "quick" else 1500,
+                       timeout=900 if tier == "quick" else 2400, shards=16)
+
+
 def run(res, ctx):
-    run_abi(res, ctx)
-    # part (b): run_args(res, ctx) - argument shuffling, harness/c06_args.cpp
+    if ctx["opts"].get("leg") != "args":
+        run_abi(res, ctx)
+    run_args(res, ctx)
 
 
 _exe_cache = {}
@@ -184,6 +197,9 @@ def _replay_one(res, variant, path, extra_args, tier):
 
 def replay(res, path, ctx):
     text = open(path).read()
+    if "harness=c06_args" in text:
+        runner.run_harness(res, SRC_ARGS, "asan", ctx["tier"], replay=path, timeout=300)
+        return
     if "harness=c06_abi" in text or "\ncase " in text or text.startswith("case ") or "interop sig=" in text:
         if "interop sig=" in text:
             exe = _exe_cache.get("fast")
